@@ -2022,6 +2022,10 @@ def setup():
   inherit"""
   corpus()
   _load_pox()
+  # (loaded before the children fork, so that install() finds their clocks)
+  import pox.forwarding.l3_learning
+  import pox.proto.dns_spy
+  import pox.host_tracker.host_tracker
   _index_of(0)
   for t in BUDGET:
     units(t)
